@@ -96,7 +96,7 @@ theorem delconj_run {e : Eig ℂ n N} {cpx : Fin N → Bool} {isSmall : ℂ → 
       | succ j => simp at h1
     | cons b rest =>
       simp only [List.map_cons] at h1 ih ⊢
-      rw [runModal] at h1 ⊢
+      rw [runModal_cons_cons] at h1 ⊢
       have hd : ∀ (y' : Fin N → ℂ) (ws : List (Fin N → ℂ)) (w : Fin N → ℂ),
           (runModal order1 (fun k => coefSel isSmall (e.lam k) h) y' (w :: ws))[0]? = some y' := by
         intro y' ws w
